@@ -50,6 +50,7 @@ def run(rep: Report, tier: str) -> None:
 	rule_f(rep, idx)
 	rule_g(rep, idx)
 	rule_h(rep, idx)
+	rule_i(rep, idx)
 
 
 def _errors_classes(idx: SourceIndex) -> dict[str, object]:
@@ -552,3 +553,72 @@ def rule_h(rep: Report, idx: SourceIndex) -> None:
 				r.check(swallowed(f, hit), f'{f.qualname}:{unparse(hit)[:40]}', (m.relpath, hit.lineno), f'{f.qualname} stringifies an error argument with `{unparse(hit)[:60]}` outside any `except Exception` that does not re-raise: __str__ of a node / reflection resolves names lazily and raises again for the element that caused the error (`class A([int]): ...`, `for a in {{a: True}} + print: pass`), so str(ErrorRender(e)) raises and the interactive loop ends', unparse(hit)[:80])
 	if sites == 0:
 		r.skip('args-stringified', cls.where, 'ErrorRender no longer stringifies the elements of e.args in a recognised form')
+
+
+# ---- (i) results of "may return None" lookups are tested before use ------------------------------------------------------------------------
+
+def rule_i(rep: Report, idx: SourceIndex) -> None:
+	"""The lookup helpers come in pairs: by_x raises an Errors.* class when nothing is found, find_x / try_x returns None (declared `-> T | None`).
+	Reading an attribute of a find_x result without a None test turns "not found" (an undefined name in the input) into a builtin AttributeError that
+	escapes Modules.load: the preprocessors run outside Procedure's normalisation. Where one result in a function is tested and the next is not, one of
+	the two beliefs is wrong (Engler's contradiction rule); here the declared return type says which."""
+	from vlib.match import atoms, may_reach
+	r = rep.rule('C07/optional-results-checked', 'every attribute read on the result of a function declared to return `T | None` (same-named functions all declared so) is dominated by a None / truth / isinstance test of that result', floor=4)
+	optional: dict[str, list[str]] = {}
+	plain: set[str] = set()
+
+	def has_none(x: ast.AST, top: ast.AST) -> bool:
+		if isinstance(x, ast.BinOp) and isinstance(x.op, ast.BitOr):
+			return has_none(x.left, top) or has_none(x.right, top)
+		if isinstance(x, ast.Constant) and x.value is None:
+			return x is not top
+		return isinstance(x, ast.Subscript) and unparse(x.value) in ('Optional', 'typing.Optional')
+	files = [rel for rel in idx.all_py(('rogw',)) if not rel.startswith(('rogw/tranp/test/', 'rogw/tranp/compatible/'))]
+	for rel in files:
+		for q, f in idx.mod(rel).functions.items():
+			ann = f.node.returns
+			if isinstance(ann, ast.Constant) and isinstance(ann.value, str):
+				try:
+					ann = ast.parse(ann.value, mode='eval').body
+				except SyntaxError:
+					ann = None
+			key = f.name.lstrip('_')
+			if ann is not None and has_none(ann, ann):
+				optional.setdefault(key, []).append(q)
+			else:
+				plain.add(key)
+	names = {k for k in optional if k not in plain}
+	n_uses = 0
+	for rel in files:
+		if rel.startswith('rogw/tranp/bin/'):
+			continue
+		m = idx.mod(rel)
+		for q, f in m.functions.items():
+			if '#' in q:
+				continue
+			for u in ast.walk(f.node):
+				if not (isinstance(u, ast.Attribute) and isinstance(u.ctx, ast.Load)):
+					continue
+				base = u.value
+				vals: list[ast.AST] = []
+				alts: set[str] = set()
+				if isinstance(base, ast.Call):
+					vals = [base]
+				elif isinstance(base, ast.Name) and isinstance(base.ctx, ast.Load):
+					defs_ = may_reach(f.node, base)
+					if not defs_:
+						continue
+					vals = [getattr(d_, 'value', None) for d_ in defs_]
+					alts.add(base.id)
+				if not vals or not all(isinstance(v, ast.Call) and isinstance(v.func, ast.Attribute) and v.func.attr.lstrip('_') in names for v in vals):
+					continue
+				n_uses += 1
+				rep.consulted(rel)
+				alts |= {unparse(v) for v in vals}
+				known = atoms(f.node, u)
+				ok = any((unparse(a) in {f'{x} is None' for x in alts} and not p_) or (unparse(a) in {f'{x} is not None' for x in alts} and p_) or (unparse(a) in alts and p_) or (p_ and any(unparse(a).startswith(f'isinstance({x},') for x in alts)) for a, p_ in known)
+				callee = vals[0].func.attr
+				r.check(ok, f'{rel}:{q}:{unparse(u)[:50]}', (rel, u.lineno), f'{q} reads `{unparse(u)[:60]}` on the result of `{callee}(...)`, which is declared to return None when nothing is found, without testing it: an input that makes the lookup fail (an undefined or un-imported name) raises a builtin AttributeError instead of an Errors.* class', unparse(u)[:80])
+	rep.extra_coverage['optional_returning_functions'] = len(names)
+	if n_uses == 0:
+		r.skip('uses', None, 'no attribute read on the result of an Optional-returning function found')
